@@ -35,6 +35,9 @@ def run(ctx):
     ctx.step(pairing, ctx)
     ctx.step(ownership, ctx)
     ctx.step(common.rcu_writer_guard, ctx, "C13.erase-once")
+    from . import c05
+    ctx.step(c05.unlink_first, ctx, "C13.unlink")
+    ctx.step(c05.register, ctx, "C13.register")
     ctx.step(uaf, ctx, "C13.uaf", fns(ctx), floor=20)
 
 
